@@ -413,6 +413,8 @@ func (g *GoFakeS3) deleteBucket(bucket string, w http.ResponseWriter, r *http.Re
 			if err := f.ForceDeleteBucket(bucket); err != nil {
 				return err
 			}
+			w.WriteHeader(http.StatusNoContent)
+			return nil
 		}
 	}
 
